@@ -182,6 +182,9 @@ def run_tool(tool, variant, main, dfile, rng):
     c = {'tool': tool, 'main': [[n, b] for n, b in main.items() if b], 'dfile': [[n, b] for n, b in dfile.items() if b],
          'before': {n: [] for n in NAMES}, 'after': {n: [] for n in NAMES}, 'crashed': 0, 'reported': [], 'roles': ROLES}
     try:
+        # the role 'x' is spelled with a character beyond the BMP: printable (an emoji), or not (a tag
+        # character, a private-use code point of plane 16)
+        SPELL['x'] = 'x' + rng.choice(['\U0001f511', '\U000e0041', '\U0010fffd', '\U0001f511\U000e0062'])
         fmt = 'json' if tool == 'convert' else rng.choice(['json', 'yaml'])
         mp = os.path.join(d, 'policy.' + fmt)
         text = render_file(main, variant, rng, fmt)
@@ -203,6 +206,9 @@ def run_tool(tool, variant, main, dfile, rng):
                     c['after'] = decisions(enforcer_on(out, [dd], variant))
                 elif tool == 'upgrade':
                     ofmt = rng.choice(['yaml', 'json'])
+                    if rng.random() < 0.3:
+                        out = mp              # upgraded in place: the output file IS the policy file
+                        c['_in_place'] = True
                     generator.upgrade_policy(args=['--policy', mp, '--namespace', 'ns', '--output-file', out, '--format', ofmt], conf=cfg.ConfigOpts())
                     c['after'] = decisions(enforcer_on(out, [dd], variant))
                 else:
